@@ -374,6 +374,15 @@ func stringifyKeys(v interface{}) interface{} {
 			x[i] = stringifyKeys(val)
 		}
 		return x
+	case []map[string]interface{}:
+		// go-toml yields this type for an array of tables where YAML and JSON yield []interface{};
+		// mergo refuses to join two lists of different types (a list declared partly in a TOML file,
+		// partly in a YAML or JSON file)
+		l := make([]interface{}, len(x))
+		for i, val := range x {
+			l[i] = stringifyKeys(val)
+		}
+		return l
 	}
 
 	return v
